@@ -970,11 +970,14 @@ def evaluate__analyze_string(self: XPathFunction, context: ta.ContextType = None
     if context is None:
         raise self.missing_context()
 
-    level = 0
+    # The enclosing capturing group of each group (0 for none), from the parentheses
+    # of the translated pattern: '(?' opens a group that doesn't capture.
     escaped = False
     char_class = False
-    group_levels = [0]
-    for s in compiled_pattern.pattern:
+    parents = [0]
+    opened: list[int] = []
+    regex = compiled_pattern.pattern
+    for i, s in enumerate(regex):
         if escaped:
             escaped = False
         elif s == '\\':
@@ -985,10 +988,35 @@ def evaluate__analyze_string(self: XPathFunction, context: ta.ContextType = None
         elif s == '[':
             char_class = True
         elif s == '(':
-            group_levels.append(level)
-            level += 1
+            if regex[i + 1:i + 2] == '?':
+                opened.append(0)
+            else:
+                parents.append(next((g for g in reversed(opened) if g), 0))
+                opened.append(len(parents) - 1)
         elif s == ')':
-            level -= 1
+            opened.pop()
+
+    def escape(text: str) -> str:
+        return text.replace('&', '&amp;').replace('<', '&lt;').replace('\r', '&#13;')
+
+    def build(match: 're.Match[str]', idx: int, start: int, stop: int) -> str:
+        """The content of group idx (0 for the match): its text with an element for each group
+        captured within it, nested in the nearest enclosing group that contains its span."""
+        items = []
+        k = start
+        for g in sorted(children[idx], key=lambda x: match.span(x)):
+            _start, _stop = match.span(g)
+            if _start < k:
+                continue  # overlaps a previous sibling (a capture left from a previous iteration)
+            items.append(escape(input_string[k:_start]))
+            content = build(match, g, _start, _stop)
+            if content:
+                items.append('<group nr="{}">{}</group>'.format(g, content))
+            else:
+                items.append('<group nr="{}"/>'.format(g))
+            k = _stop
+        items.append(escape(input_string[k:stop]))
+        return ''.join(items)
 
     lines = ['<analyze-string-result xmlns="{}">'.format(XPATH_FUNCTIONS_NAMESPACE)]
     k = 0
@@ -996,69 +1024,27 @@ def evaluate__analyze_string(self: XPathFunction, context: ta.ContextType = None
     while k < len(input_string):
         match = compiled_pattern.search(input_string, k)
         if match is None:
-            lines.append('<non-match>{}</non-match>'.format(input_string[k:]))
+            lines.append('<non-match>{}</non-match>'.format(escape(input_string[k:])))
             break
-        elif not match.groups():
-            start, stop = match.span()
-            if start > k:
-                lines.append('<non-match>{}</non-match>'.format(input_string[k:start]))
-            lines.append('<match>{}</match>'.format(input_string[start:stop]))
-            k = stop
-        else:
-            start, stop = match.span()
-            if start > k:
-                lines.append('<non-match>{}</non-match>'.format(input_string[k:start]))
-                k = start
 
-            match_items = []
-            group_tmpl = '<group nr="{}">{}'
-            empty_group_tmpl = '<group nr="{}"/>'
-            unclosed_groups = 0
+        start, stop = match.span()
+        if start > k:
+            lines.append('<non-match>{}</non-match>'.format(escape(input_string[k:start])))
 
-            for idx in range(1, compiled_pattern.groups + 1):
-                _start, _stop = match.span(idx)
-                if _start < 0:
-                    continue
-                elif _start > k:
-                    if unclosed_groups:
-                        for _ in range(unclosed_groups):
-                            match_items.append('</group>')
-                        unclosed_groups = 0
+        children: dict[int, list[int]] = {0: []}
+        for idx in range(1, compiled_pattern.groups + 1):
+            if match.span(idx)[0] < 0:
+                continue
+            children[idx] = []
+            ancestor = parents[idx]
+            while ancestor and (ancestor not in children
+                                or match.span(ancestor)[0] > match.span(idx)[0]
+                                or match.span(ancestor)[1] < match.span(idx)[1]):
+                ancestor = parents[ancestor]
+            children[ancestor].append(idx)
 
-                    match_items.append(input_string[k:_start])
-
-                if _start == _stop:
-                    if group_levels[idx] <= group_levels[idx - 1]:
-                        for _ in range(unclosed_groups):
-                            match_items.append('</group>')
-                        unclosed_groups = 0
-                    match_items.append(empty_group_tmpl.format(idx))
-                    k = _stop
-                elif idx == compiled_pattern.groups:
-                    k = _stop
-                    match_items.append(group_tmpl.format(idx, input_string[_start:k]))
-                    match_items.append('</group>')
-                else:
-                    # the next group that takes part in the match (an optional group may not)
-                    nxt = next((j for j in range(idx + 1, compiled_pattern.groups + 1)
-                                if match.span(j)[0] >= 0), 0)
-                    next_start = match.span(nxt)[0] if nxt else -1
-                    if next_start < 0 or _stop < next_start or _stop == next_start \
-                            and group_levels[nxt] <= group_levels[idx]:
-                        k = _stop
-                        match_items.append(group_tmpl.format(idx, input_string[_start:k]))
-                        match_items.append('</group>')
-                    else:
-                        k = next_start
-                        match_items.append(group_tmpl.format(idx, input_string[_start:k]))
-                        unclosed_groups += 1
-
-            for _ in range(unclosed_groups):
-                match_items.append('</group>')
-
-            match_items.append(input_string[k:stop])
-            k = stop
-            lines.append('<match>{}</match>'.format(''.join(match_items)))
+        lines.append('<match>{}</match>'.format(build(match, 0, start, stop)))
+        k = stop
 
     lines.append('</analyze-string-result>')
     if self.parser.defuse_xml:
